@@ -37,6 +37,8 @@ pub struct Outcome {
     pub violations: Vec<(String, String)>,
     pub after_drop: Vec<String>,
     pub last_panic: Option<String>,
+    pub late_drops: Vec<u64>,
+    pub drop_wakes: u64,
 }
 
 /// Supplies the executions of a batch and receives their outcomes.
@@ -133,17 +135,18 @@ struct Shared<'a> {
 fn finish(cur: Current, failure: Option<Failure>, sched: SchedReport) -> (Arc<Case>, SchedSpec, Outcome) {
     let ctx = cur.ctx;
     let log = std::mem::take(&mut *ctx.log.lock().unwrap_or_else(|e| e.into_inner()));
-    let (live_tokens, double_drops, tokens_created) = {
+    let (live_tokens, double_drops, tokens_created, late_drops) = {
         let t = ctx.toks.lock().unwrap_or_else(|e| e.into_inner());
-        (t.live.iter().map(|(k, v)| (*k, *v)).collect(), t.double_drops.clone(), t.created)
+        (t.live.iter().map(|(k, v)| (*k, *v)).collect(), t.double_drops.clone(), t.created, t.late_drops.clone())
     };
+    let drop_wakes = ctx.drop_wakes.load(std::sync::atomic::Ordering::Relaxed);
     let violations = std::mem::take(&mut *ctx.violations.lock().unwrap_or_else(|e| e.into_inner()));
     let after_drop = std::mem::take(&mut *ctx.after_drop_activity.lock().unwrap_or_else(|e| e.into_inner()));
     let last_panic = LAST_PANIC.with(|l| l.borrow().clone());
     (
         cur.case,
         cur.spec,
-        Outcome { log, info: cur.info, sched, failure, live_tokens, double_drops, tokens_created, violations, after_drop, last_panic },
+        Outcome { log, info: cur.info, sched, failure, live_tokens, double_drops, tokens_created, violations, after_drop, last_panic, late_drops, drop_wakes },
     )
 }
 
